@@ -19,7 +19,7 @@ SPEC = {
          "eval": "fun c => let '(s, d, l, f, st) := c in check_c11r s d 2000 (rule_fuel d) l f st", "per_shard": 40},
     ],
     "classes": {1: "fragment-fanout-exponential"},
-    "n_quick": 300, "n_thorough": 3000,
+    "n_quick": 300, "n_thorough": 1200,
     "level": "proof",
     "coqc_timeout": 1500,
     "what_violation": ("checking work exceeds its proved/tested polynomial or differs from the cost model (CASE: selection visits counted by the first cfg hook "
